@@ -560,7 +560,7 @@ def unitEnds (o : Obs) : Nat :=
   match o.op, o.out with
   | .base (.conn ..), .base .badas => 1
   | .base (.conn ..), .base .rejected => 1
-  | .base (.hold _), .base (.expired (some _)) => 1
+  | .base (.hold _), .base (.expired _) => 1
   | .base .terminate, .term up _ => up
   | .reconf .., .reconf _ ended => ended.length
   | _, _ => 0
@@ -577,7 +577,7 @@ def missedDisc (mv : MVariant) (o : Obs) : Nat :=
   match o.op, o.out with
   | .base (.conn ..), .base .badas => 1
   | .base (.conn ..), .base .rejected => 1 - on mv.discdup
-  | .base (.hold _), .base (.expired (some _)) => 1
+  | .base (.hold _), .base (.expired _) => 1
   | .reconf .., .reconf _ ended => (ended.map fun e => 1 - verdictWeight mv e.2.1).sum
   | _, _ => 0
 
@@ -831,6 +831,478 @@ theorem BgpMetrics_conn_appends (mv : MVariant) (s : MWorld) (a : Addr) (asn k :
 example : stepCalls asWritten (run asWritten E3 true [.base (.conn 1 65001), .base (.conn 2 65002)]).1 (.base (.fin 0))
     = stepCalls asWritten (run asWritten E3 true [.base (.conn 1 65001), .base (.conn 2 65002), .base (.rst 1), .base (.conn 3 65003)]).1 (.base (.fin 0)) := by
   decide
+
+
+
+/-! ### Conservation -/
+
+def cntPh (p : Phase) (l : List Sess) : Nat := l.countP fun x => x.ph = p
+
+theorem runningN_eq (l : List Sess) : runningN l = cntPh .running l := by
+  simp [runningN, cntPh, List.countP_eq_length_filter]
+
+theorem cnt_set (p : Phase) (x' : Sess) : ∀ (l : List Sess) (k : Nat) (x : Sess), l[k]? = some x →
+    cntPh p (l.set k x') + (if x.ph = p then 1 else 0) = cntPh p l + (if x'.ph = p then 1 else 0) := by
+  intro l
+  induction l with
+  | nil => intro k x h; simp at h
+  | cons y ys ih =>
+    intro k x h
+    cases k with
+    | zero =>
+      simp only [List.getElem?_cons_zero, Option.some.injEq] at h
+      subst h
+      simp only [List.set_cons_zero, cntPh, List.countP_cons, decide_eq_true_eq]
+      omega
+    | succ k =>
+      simp only [List.getElem?_cons_succ] at h
+      have := ih k x h
+      simp only [List.set_cons_succ, cntPh, List.countP_cons, decide_eq_true_eq] at this ⊢
+      omega
+
+theorem cnt_append (p : Phase) (a b : List Sess) : cntPh p (a ++ b) = cntPh p a + cntPh p b := by
+  simp [cntPh, List.countP_append]
+
+theorem finish_sess (v : BgpIn.Variant) (w : World) (k : Nat) (x : Sess) :
+    (finish v w k x).1.sess = w.sess.set k { x with ph := .done, copen := false } := by
+  unfold finish
+  split <;> simp [setSess, emit]
+
+
+def NoFlood (l : List Sess) : Prop := ∀ x ∈ l, x.ph ≠ .flooding
+
+/-- Replacing slot `k` (which holds `x`) by `x'`. -/
+theorem slot_update (l : List Sess) (k : Nat) (x x' : Sess) (hs : l[k]? = some x) (hN : NoFlood l)
+    (hx' : x'.ph ≠ .flooding) :
+    NoFlood (l.set k x') ∧
+    cntPh .running (l.set k x') + (if x.ph = .running then 1 else 0) = cntPh .running l + (if x'.ph = .running then 1 else 0) ∧
+    cntPh .dead (l.set k x') + (if x.ph = .dead then 1 else 0) = cntPh .dead l + (if x'.ph = .dead then 1 else 0) := by
+  refine ⟨?_, cnt_set _ _ _ _ _ hs, cnt_set _ _ _ _ _ hs⟩
+  intro y hy
+  rcases List.mem_or_eq_of_mem_set hy with h | h
+  · exact hN y h
+  · subst h; exact hx'
+
+theorem set_at_length (pre rest : List Sess) (x a : Sess) : (pre ++ x :: rest).set pre.length a = pre ++ a :: rest := by
+  induction pre with
+  | nil => simp
+  | cons p ps ih => simp [ih]
+
+def termMap (ss : List Sess) : List Sess := ss.map fun s => if s.ph = .running then { s with ph := .done } else s
+
+theorem terminateAll_sess (v : BgpIn.Variant) (hv : v.fsmdrop = .repaired) (ss : List Sess) :
+    ∀ (pre : List Sess) (w : World) (acc : List Nat), w.sess = pre ++ ss →
+      (terminateAll v pre.length ss w acc).1.sess = pre ++ termMap ss := by
+  induction ss with
+  | nil => intro pre w acc h; simp [terminateAll, termMap, h]
+  | cons x xs ih =>
+    intro pre w acc h
+    unfold terminateAll
+    by_cases hp : x.ph = .running
+    · simp only [hp, if_true, hv]
+      have e : (setSess (finish v w pre.length x).1 pre.length { x with ph := .done }).sess
+          = (pre ++ [{ x with ph := .done }]) ++ xs := by
+        simp only [setSess, finish_sess, h, set_at_length, List.append_assoc, List.singleton_append]
+      have := ih (pre ++ [{ x with ph := .done }]) _ (acc ++ (finish v w pre.length x).2.toList) e
+      simp only [List.length_append, List.length_singleton] at this
+      rw [this]
+      simp [termMap, hp]
+    · simp only [hp, if_false]
+      have e : w.sess = (pre ++ [x]) ++ xs := by simp [h]
+      have := ih (pre ++ [x]) w acc e
+      simp only [List.length_append, List.length_singleton] at this
+      rw [this]
+      simp [termMap, hp]
+
+theorem termMap_counts (ss : List Sess) (hN : NoFlood ss) :
+    NoFlood (termMap ss) ∧ cntPh .running (termMap ss) = 0 ∧ cntPh .dead (termMap ss) = cntPh .dead ss := by
+  induction ss with
+  | nil => simp [termMap, NoFlood, cntPh]
+  | cons x xs ih =>
+    have hx : x.ph ≠ .flooding := hN x (by simp)
+    obtain ⟨h1, h2, h3⟩ := ih (fun y hy => hN y (by simp [hy]))
+    simp only [termMap, List.map_cons] at h1 h2 h3 ⊢
+    refine ⟨?_, ?_, ?_⟩
+    · intro y hy
+      simp only [List.mem_cons] at hy
+      rcases hy with h | h
+      · subst h; split <;> simp_all
+      · exact h1 y h
+    · simp only [cntPh, List.countP_cons] at h2 ⊢
+      rw [h2]
+      split <;> simp_all
+    · simp only [cntPh, List.countP_cons] at h3 ⊢
+      rw [h3]
+      by_cases hp : x.ph = .running <;> simp [hp]
+
+
+def reconfMap (cfg' : List Entry) (main' : Nat × Nat) : List Sess → List (Option Acc) → List Sess
+  | x :: xs, a :: as =>
+    (match verdict cfg' main' x a with
+     | some _ => { x with ph := .done, copen := false }
+     | none => x) :: reconfMap cfg' main' xs as
+  | xs, _ => xs
+
+theorem reconfAll_sess (v : BgpIn.Variant) (cfg' : List Entry) (main' : Nat × Nat) (ss : List Sess) :
+    ∀ (as : List (Option Acc)) (pre : List Sess) (w : World) (out : List (Nat × Verdict × Bool)), w.sess = pre ++ ss →
+      (reconfAll v cfg' main' pre.length ss as w out).1.sess = pre ++ reconfMap cfg' main' ss as ∧
+      (reconfAll v cfg' main' pre.length ss as w out).2.length + cntPh .running (reconfMap cfg' main' ss as)
+        = out.length + cntPh .running ss := by
+  induction ss with
+  | nil => intro as pre w out h; simp [reconfAll, reconfMap, h]
+  | cons x xs ih =>
+    intro as pre w out h
+    cases as with
+    | nil => simp [reconfAll, reconfMap, h]
+    | cons a as =>
+      simp only [reconfAll, reconfMap]
+      cases hv : verdict cfg' main' x a with
+      | none =>
+        dsimp only
+        have e : w.sess = (pre ++ [x]) ++ xs := by simp [h]
+        have := ih as (pre ++ [x]) w out e
+        simp only [List.length_append, List.length_singleton] at this
+        obtain ⟨t1, t2⟩ := this
+        refine ⟨by rw [t1]; simp, ?_⟩
+        simp only [cntPh, List.countP_cons] at t2 ⊢
+        omega
+      | some vd =>
+        dsimp only
+        have hrun : x.ph = .running := by
+          unfold verdict at hv
+          by_cases hp : x.ph = .running
+          · exact hp
+          · simp [hp] at hv
+        have e : (finish v w pre.length x).1.sess = (pre ++ [{ x with ph := .done, copen := false }]) ++ xs := by
+          simp only [finish_sess, h, set_at_length, List.append_assoc, List.singleton_append]
+        have := ih as (pre ++ [{ x with ph := .done, copen := false }]) (finish v w pre.length x).1
+          (out ++ [(pre.length, vd, (finish v w pre.length x).2.isSome)]) e
+        simp only [List.length_append, List.length_singleton] at this
+        obtain ⟨t1, t2⟩ := this
+        refine ⟨by rw [t1]; simp, ?_⟩
+        simp only [cntPh, List.countP_cons, hrun] at t2 ⊢
+        simp at t2 ⊢
+        omega
+
+theorem reconfMap_counts (cfg' : List Entry) (main' : Nat × Nat) (ss : List Sess) :
+    ∀ (as : List (Option Acc)), NoFlood ss →
+      NoFlood (reconfMap cfg' main' ss as) ∧ cntPh .dead (reconfMap cfg' main' ss as) = cntPh .dead ss := by
+  induction ss with
+  | nil => intro as hN; simp [reconfMap, NoFlood, cntPh]
+  | cons x xs ih =>
+    intro as hN
+    cases as with
+    | nil => simp [reconfMap, hN]
+    | cons a as =>
+      have hx : x.ph ≠ .flooding := hN x (by simp)
+      obtain ⟨h1, h2⟩ := ih as (fun y hy => hN y (by simp [hy]))
+      simp only [reconfMap]
+      refine ⟨?_, ?_⟩
+      · intro y hy
+        simp only [List.mem_cons] at hy
+        rcases hy with h | h
+        · subst h; split <;> simp_all
+        · exact h1 y h
+      · simp only [cntPh, List.countP_cons] at h2 ⊢
+        rw [h2]
+        cases hv : verdict cfg' main' x a with
+        | none => simp
+        | some vd =>
+          have hrun : x.ph = .running := by
+            unfold verdict at hv
+            by_cases hp : x.ph = .running
+            · exact hp
+            · simp [hp] at hv
+          simp [hrun]
+
+
+/-- Connections that became an established session. -/
+def nNeg (o : Obs) : Nat :=
+  match o.op, o.out with
+  | .base (.conn ..), .base .neg => 1
+  | _, _ => 0
+
+/-- Established sessions that ended (whoever ended them). -/
+def estEnds (o : Obs) : Nat :=
+  match o.op, o.out with
+  | .base (.fin _), .base out | .base (.rst _), .base out | .base (.garbage ..), .base out => if isEnd out then 1 else 0
+  | .base (.hold _), .base (.expired _) => 1
+  | .base .terminate, .term up _ => up
+  | .reconf .., .reconf _ ended => ended.length
+  | _, _ => 0
+
+def Step (mv : MVariant) (s : MWorld) (o : MOp) : Prop :=
+  NoFlood (mstep mv s o).1.w.sess ∧
+  nNeg ⟨o, (mstep mv s o).2, s.linked⟩ + cntPh .running s.w.sess + cntPh .dead s.w.sess
+    = cntPh .running (mstep mv s o).1.w.sess + cntPh .dead (mstep mv s o).1.w.sess + estEnds ⟨o, (mstep mv s o).2, s.linked⟩
+
+theorem isEnd_endOut (r : Option Nat) : isEnd (endOut r) = true := by cases r <;> rfl
+
+theorem noFlood_snoc (l : List Sess) (x : Sess) (hN : NoFlood l) (hx : x.ph ≠ .flooding) : NoFlood (l ++ [x]) := by
+  intro y hy
+  simp only [List.mem_append, List.mem_singleton] at hy
+  rcases hy with h | h
+  · exact hN y h
+  · subst h; exact hx
+
+theorem cons_step_conn (mv : MVariant) (s : MWorld) (a : Addr) (asn : Nat) (hN : NoFlood s.w.sess) :
+    Step mv s (.base (.conn a asn)) := by
+  simp only [Step, mstep, step]
+  by_cases ht : s.w.term
+  · simp [ht, nNeg, estEnds, cnt_append, cntPh, noFlood_snoc _ _ hN]
+  · cases hg : get s.w.cfg a with
+    | none => simp [ht, hg, nNeg, estEnds, cnt_append, cntPh, noFlood_snoc _ _ hN]
+    | some e =>
+      by_cases hacc : e.asns.accepts asn
+      · by_cases hl : (a, asn) ∈ s.w.live
+        · simp [ht, hg, hacc, hl, nNeg, estEnds, cnt_append, cntPh, noFlood_snoc _ _ hN]
+        · simp [ht, hg, hacc, hl, nNeg, estEnds, cnt_append, cntPh, noFlood_snoc _ _ hN]; omega
+      · simp [ht, hg, hacc, nNeg, estEnds, cnt_append, cntPh, noFlood_snoc _ _ hN]
+
+
+theorem cons_step_upd (mv : MVariant) (s : MWorld) (k : Nat) (u : Rib.Upd) (hN : NoFlood s.w.sess) :
+    Step mv s (.base (.upd k u)) := by
+  simp only [Step, mstep, step]
+  cases hs : s.w.sess[k]? with
+  | none => simp [nNeg, estEnds, hN]
+  | some x =>
+    by_cases hc : x.copen
+    · by_cases hp : x.ph = .running <;> simp [hc, hp, nNeg, estEnds, hN, emit]
+    · simp [hc, nNeg, estEnds, hN]
+
+theorem cons_step_notif (mv : MVariant) (s : MWorld) (k : Nat) (hN : NoFlood s.w.sess) :
+    Step mv s (.base (.notif k)) := by
+  simp only [Step, mstep, step]
+  cases hs : s.w.sess[k]? with
+  | none => simp [nNeg, estEnds, hN]
+  | some x => by_cases hc : x.copen <;> simp [hc, nNeg, estEnds, hN]
+
+theorem cons_step_fin (mv : MVariant) (s : MWorld) (k : Nat) (hN : NoFlood s.w.sess) :
+    Step mv s (.base (.fin k)) := by
+  simp only [Step, mstep, step]
+  cases hs : s.w.sess[k]? with
+  | none => simp [nNeg, estEnds, hN, isEnd]
+  | some x =>
+    have hx : x.ph ≠ .flooding := hN x (List.mem_of_getElem? hs)
+    by_cases hc : x.copen
+    · by_cases hp : x.ph = .running
+      · obtain ⟨u1, u2, u3⟩ := slot_update s.w.sess k x { x with ph := .done, copen := false } hs hN (by simp)
+        simp [hp] at u2 u3
+        simp [hc, hp, nNeg, estEnds, isEnd_endOut, finish_sess, u1]
+        omega
+      · obtain ⟨u1, u2, u3⟩ := slot_update s.w.sess k x { x with copen := false } hs hN hx
+        simp at u2 u3
+        simp [hc, hp, hx, nNeg, estEnds, isEnd, setSess, u1]
+        omega
+    · simp [hc, nNeg, estEnds, hN, isEnd]
+
+theorem cons_step_rst (mv : MVariant) (s : MWorld) (k : Nat) (hN : NoFlood s.w.sess) :
+    Step mv s (.base (.rst k)) := by
+  simp only [Step, mstep, step]
+  cases hs : s.w.sess[k]? with
+  | none => simp [nNeg, estEnds, hN, isEnd]
+  | some x =>
+    have hx : x.ph ≠ .flooding := hN x (List.mem_of_getElem? hs)
+    by_cases hc : x.copen
+    · by_cases hp : x.ph = .running
+      · obtain ⟨u1, u2, u3⟩ := slot_update s.w.sess k x { x with ph := .done, copen := false } hs hN (by simp)
+        simp [hp] at u2 u3
+        simp [hc, hp, nNeg, estEnds, isEnd_endOut, finish_sess, u1]
+        omega
+      · obtain ⟨u1, u2, u3⟩ := slot_update s.w.sess k x { x with copen := false } hs hN hx
+        simp at u2 u3
+        simp [hc, hp, hx, nNeg, estEnds, isEnd, setSess, u1]
+        omega
+    · simp [hc, nNeg, estEnds, hN, isEnd]
+
+theorem cons_step_hold (mv : MVariant) (s : MWorld) (k : Nat) (hN : NoFlood s.w.sess) :
+    Step mv s (.base (.hold k)) := by
+  simp only [Step, mstep, step, MVariant.base]
+  cases hs : s.w.sess[k]? with
+  | none => simp [nNeg, estEnds, hN]
+  | some x =>
+    have hx : x.ph ≠ .flooding := hN x (List.mem_of_getElem? hs)
+    by_cases hc : x.copen
+    · by_cases hp : x.ph = .running
+      · obtain ⟨u1, u2, u3⟩ := slot_update s.w.sess k x { x with ph := .done, copen := false } hs hN (by simp)
+        simp [hp] at u2 u3
+        simp [hc, hp, nNeg, estEnds, finish_sess, u1]
+        omega
+      · obtain ⟨u1, u2, u3⟩ := slot_update s.w.sess k x { x with copen := false } hs hN hx
+        simp at u2 u3
+        simp [hc, hp, hx, nNeg, estEnds, setSess, u1]
+        omega
+    · simp [hc, nNeg, estEnds, hN]
+
+theorem cons_step_garbage (mv : MVariant) (s : MWorld) (k kind : Nat) (hN : NoFlood s.w.sess) :
+    Step mv s (.base (.garbage k kind)) := by
+  simp only [Step, mstep, step, MVariant.base]
+  cases hs : s.w.sess[k]? with
+  | none => simp [nNeg, estEnds, hN, isEnd]
+  | some x =>
+    have hx : x.ph ≠ .flooding := hN x (List.mem_of_getElem? hs)
+    by_cases hc : x.copen
+    · by_cases hp : x.ph = .running
+      · by_cases hk : kind = 0 ∧ mv.frame = .asWritten
+        · obtain ⟨u1, u2, u3⟩ := slot_update s.w.sess k x { x with ph := .dead, copen := false } hs hN (by simp)
+          simp [hp] at u2 u3
+          simp [hc, hp, hk, nNeg, estEnds, isEnd, setSess, u1]
+          omega
+        · obtain ⟨u1, u2, u3⟩ := slot_update s.w.sess k x { x with ph := .done, copen := false } hs hN (by simp)
+          simp [hp] at u2 u3
+          simp [hc, hp, hk, nNeg, estEnds, isEnd_endOut, finish_sess, u1]
+          omega
+      · obtain ⟨u1, u2, u3⟩ := slot_update s.w.sess k x { x with copen := false } hs hN hx
+        simp at u2 u3
+        simp [hc, hp, hx, nNeg, estEnds, isEnd, setSess, u1]
+        omega
+    · simp [hc, nNeg, estEnds, hN, isEnd]
+
+theorem cons_step_terminate (mv : MVariant) (s : MWorld) (hN : NoFlood s.w.sess) : Step mv s (.base .terminate) := by
+  simp only [Step, mstep, step]
+  by_cases ht : s.w.term
+  · simp [ht, nNeg, estEnds, hN]
+  · have e := terminateAll_sess mv.base rfl s.w.sess [] { s.w with term := true } [] (by simp)
+    obtain ⟨t1, t2, t3⟩ := termMap_counts s.w.sess hN
+    simp only [List.length_nil, List.nil_append] at e
+    simp only [ht, if_false, Bool.false_eq_true, e, nNeg, estEnds, runningN_eq, t2, t3]
+    exact ⟨t1, by omega⟩
+
+theorem cons_step_reconf (mv : MVariant) (s : MWorld) (cfg' : List Entry) (l a : Nat) (hN : NoFlood s.w.sess) :
+    Step mv s (.reconf cfg' l a) := by
+  simp only [Step, mstep]
+  by_cases ht : s.w.term
+  · simp [ht, nNeg, estEnds, hN]
+  · obtain ⟨e1, e2⟩ := reconfAll_sess mv.base cfg' (l, a) s.w.sess s.acc [] s.w [] (by simp)
+    obtain ⟨t1, t3⟩ := reconfMap_counts cfg' (l, a) s.w.sess s.acc hN
+    simp only [List.length_nil, List.nil_append, Nat.zero_add] at e1 e2
+    simp only [ht, if_false, Bool.false_eq_true, e1, nNeg, estEnds, t3]
+    exact ⟨t1, by omega⟩
+
+theorem cons_step (mv : MVariant) (s : MWorld) (o : MOp) (hN : NoFlood s.w.sess) : Step mv s o := by
+  cases o with
+  | base o =>
+    cases o with
+    | conn a asn => exact cons_step_conn mv s a asn hN
+    | upd k u => exact cons_step_upd mv s k u hN
+    | notif k => exact cons_step_notif mv s k hN
+    | fin k => exact cons_step_fin mv s k hN
+    | rst k => exact cons_step_rst mv s k hN
+    | garbage k kind => exact cons_step_garbage mv s k kind hN
+    | hold k => exact cons_step_hold mv s k hN
+    | terminate => exact cons_step_terminate mv s hN
+  | reconf cfg' l a => exact cons_step_reconf mv s cfg' l a hN
+  | acceptErr =>
+    simp only [Step, mstep]
+    by_cases ht : s.w.term <;> simp [ht, nNeg, estEnds, hN]
+  | bindFail =>
+    simp only [Step, mstep]
+    by_cases ht : s.w.term <;> simp [ht, nNeg, estEnds, hN]
+
+/-- Sessions: every connection that became an established session is up, dead (its task panicked), or ended. -/
+theorem sessions_conserved (mv : MVariant) (ops : List MOp) : ∀ s : MWorld, NoFlood s.w.sess →
+    total nNeg (runFrom mv s ops).2 + cntPh .running s.w.sess + cntPh .dead s.w.sess
+      = cntPh .running (runFrom mv s ops).1.w.sess + cntPh .dead (runFrom mv s ops).1.w.sess
+        + total estEnds (runFrom mv s ops).2 := by
+  induction ops with
+  | nil => intro s _; simp [runFrom, total]
+  | cons o os ih =>
+    intro s hN
+    obtain ⟨h1, h2⟩ := cons_step mv s o hN
+    have := ih (mstep mv s o).1 h1
+    simp only [runFrom, total_cons]
+    omega
+
+
+/-- Connections accepted from an address no peer entry contains (dropped at once). -/
+def nNocfg (o : Obs) : Nat :=
+  match o.op, o.out with
+  | .base (.conn ..), .base .nocfg => 1
+  | _, _ => 0
+
+/-- Connections of a configured address turned away at the OPEN (refused AS, second session of a live peer). -/
+def nTurnedAway (o : Obs) : Nat :=
+  match o.op, o.out with
+  | .base (.conn ..), .base .badas | .base (.conn ..), .base .rejected => 1
+  | _, _ => 0
+
+theorem accepted_pointwise (o : Obs) : nNocfg o + nTurnedAway o + nNeg o = nAccepted o := by
+  obtain ⟨op, out, lk⟩ := o
+  cases op with
+  | base b =>
+    cases out with
+    | base ob => cases b <;> cases ob <;> simp [nNocfg, nTurnedAway, nNeg, nAccepted]
+    | _ => cases b <;> simp [nNocfg, nTurnedAway, nNeg, nAccepted]
+  | _ => cases out <;> simp [nNocfg, nTurnedAway, nNeg, nAccepted]
+
+theorem ends_pointwise (o : Obs) : nTurnedAway o + estEnds o = peerEnds o + unitEnds o := by
+  obtain ⟨op, out, lk⟩ := o
+  cases op with
+  | base b =>
+    cases out with
+    | base ob => cases b <;> cases ob <;> simp [nTurnedAway, estEnds, peerEnds, unitEnds, isEnd]
+    | _ => cases b <;> simp [nTurnedAway, estEnds, peerEnds, unitEnds]
+  | _ => cases out <;> simp [nTurnedAway, estEnds, peerEnds, unitEnds]
+
+theorem total_add3 (f g h k : Obs → Nat) (e : ∀ o, f o + g o + h o = k o) (l : List Obs) :
+    total f l + total g l + total h l = total k l := by
+  induction l with
+  | nil => simp [total]
+  | cons o os ih => simp only [total_cons]; have := e o; omega
+
+theorem total_add22 (f g h k : Obs → Nat) (e : ∀ o, f o + g o = h o + k o) (l : List Obs) :
+    total f l + total g l = total h l + total k l := by
+  induction l with
+  | nil => simp [total]
+  | cons o os ih => simp only [total_cons]; have := e o; omega
+
+/-- **Conservation law the counters support**, for every variant and every history of any length: every accepted
+    connection is exactly one of: from an unconfigured address; an established session that is up; one whose task
+    died (frame length below 19, as written); one whose end was counted as lost; one whose end was counted as a
+    disconnect; one of the peer-side / unit-side ends the code does not count. -/
+theorem BgpMetrics_conservation (mv : MVariant) (cfg : List Entry) (linked : Bool) (ops : List MOp) :
+    let r := run mv cfg linked ops
+    r.1.m.accepted = total nNocfg r.2 + live r.1 + cntPh .dead r.1.w.sess + r.1.m.lost + r.1.m.disc
+      + total (missedLost mv) r.2 + total (missedDisc mv) r.2 := by
+  intro r
+  obtain ⟨_, h2, _⟩ := BgpMetrics_counters_exact mv cfg linked ops
+  obtain ⟨e1, e2⟩ := BgpMetrics_ends_accounted mv cfg linked ops
+  have c := sessions_conserved mv ops (MWorld.init cfg linked) (by intro x hx; simp [MWorld.init, World.init] at hx)
+  have a := total_add3 _ _ _ _ accepted_pointwise r.2
+  have b := total_add22 _ _ _ _ ends_pointwise r.2
+  have hl : live r.1 = cntPh .running r.1.w.sess := runningN_eq _
+  simp only [MWorld.init, World.init, cntPh, List.countP_nil] at c
+  change r.1.m.accepted = total nAccepted r.2 at h2
+  change r.1.m.lost + total (missedLost mv) r.2 = total peerEnds r.2 at e1
+  change r.1.m.disc + total (missedDisc mv) r.2 = total unitEnds r.2 at e2
+  change total nNeg r.2 + 0 + 0 = List.countP _ r.1.w.sess + List.countP _ r.1.w.sess + total estEnds r.2 at c
+  simp only [cntPh] at hl ⊢
+  omega
+
+/-- … so with nothing missed and no dead task, `accepted = unconfigured + up + lost + disconnected`. -/
+theorem BgpMetrics_conservation_exact (mv : MVariant) (cfg : List Entry) (linked : Bool) (ops : List MOp)
+    (g1 : total (missedLost mv) (run mv cfg linked ops).2 = 0) (g2 : total (missedDisc mv) (run mv cfg linked ops).2 = 0)
+    (g3 : cntPh .dead (run mv cfg linked ops).1.w.sess = 0) :
+    (run mv cfg linked ops).1.m.accepted
+      = total nNocfg (run mv cfg linked ops).2 + live (run mv cfg linked ops).1
+        + (run mv cfg linked ops).1.m.lost + (run mv cfg linked ops).1.m.disc := by
+  have := BgpMetrics_conservation mv cfg linked ops
+  simp only at this
+  omega
+
+/-- … and always `lost + disconnect + up ≤ accepted`: no end is counted twice, nothing is counted that was not accepted. -/
+theorem BgpMetrics_conservation_le (mv : MVariant) (cfg : List Entry) (linked : Bool) (ops : List MOp) :
+    (run mv cfg linked ops).1.m.lost + (run mv cfg linked ops).1.m.disc + live (run mv cfg linked ops).1
+      ≤ (run mv cfg linked ops).1.m.accepted := by
+  have := BgpMetrics_conservation mv cfg linked ops
+  simp only at this
+  omega
+
+example :
+    let r := run repaired E3 true [.base (.conn 1 65001), .base (.conn 2 65002), .base (.conn 9 65001), .base (.fin 0),
+      .base (.conn 3 65003), .reconf E3' 0 0]
+    total (missedLost repaired) r.2 = 0 ∧ total (missedDisc repaired) r.2 = 0 ∧ cntPh .dead r.1.w.sess = 0 ∧
+    r.1.m.accepted = 4 ∧ total nNocfg r.2 = 1 ∧ live r.1 = 0 ∧ r.1.m.lost = 1 ∧ r.1.m.disc = 2 := by decide
 
 
 end Rotonda.BgpMetrics
